@@ -51,6 +51,7 @@ def mkjob(rng, name, spk, script, ctrl, args=(), flags=STANDARD, annex=None):
 
 
 def make_jobs(chk):
+    from gen_scripts import push as G_push
     rng = chk.rng
     quick = chk.tier == "quick"
     jobs = []
@@ -105,6 +106,14 @@ def make_jobs(chk):
             n += 1
             spk, sc, ctrl = build(rng, m, ["rnd"], script=script)
             jobs.append(mkjob(rng, "c%d:leaflen%d:m%d" % (n, ln, m), spk, sc, ctrl))
+    # every leaf-script length over more than two hash blocks (the leaf hash is one write of tag || tag || version || length || script), three operations each
+    for ln in range(3, 200 if quick else 600):
+        body = ln - 3 if ln - 3 <= 75 else (ln - 4 if ln - 4 <= 255 else ln - 5)
+        script = G_push(bytes(rng.randrange(256) for _ in range(body))) + bytes([OP["DROP"]]) + b"\x51"
+        if len(script) != ln: continue          # the two lengths that fall between push forms
+        n += 1
+        spk, sc, ctrl = build(rng, 1 + ln % 2, ["rnd"], script=script)
+        jobs.append(mkjob(rng, "c%d:leafsweep%d" % (n, ln), spk, sc, ctrl))
     # single-field corruptions of valid commitments
     for m in (0, 1, 2, 5):
         for rep in range(2 if quick else 40):
